@@ -642,7 +642,10 @@ impl<'a> Gen<'a> {
 
     fn undefined(&mut self, d: usize, sc: &Scope) -> Ex {
         self.count("expr.undefined");
-        match self.rng.below(7) {
+        match self.rng.below(8) {
+            // a second level on an undefined that is not a plain path (unfused LoadAttr / subscript): an error
+            7 if self.rng.chance(1, 3) => Ex::Attr(b(Ex::Index(b(atom("xs")), b(atom("99")), false)), "a".into(), self.rng.chance(1, 2)),
+            7 => Ex::Attr(b(Ex::Index(b(atom("user")), b(str_lit("name")), false)), "a".into(), false),
             0 => Ex::Attr(b(atom("user")), "zip".into(), false),
             1 => Ex::Attr(b(atom(*self.rng.pick(&UNBOUND))), "a".into(), true),
             2 => Ex::Index(b(atom("xs")), b(atom("99")), false),
@@ -1163,7 +1166,9 @@ fn oracle_undefined(rng: &mut Rng, out: &mut Vec<Check>) {
     ctx.push(("user".into(), Value::from(user)));
     ctx.push(("n".into(), Value::none()));
     ctx.push(("xs".into(), Value::from(vec![Value::from(4), Value::from(5)])));
-    let err: [&str; 22] = [
+    let err: [&str; 28] = [
+        // accesses the optimiser cannot fuse into a path load (the base is not a plain name)
+        "{{ xs[99].a }}", "{{ xs[99].a is defined }}", "{{ user[\"zip\"].a }}", "{{ xs[99][0] }}", "{{ user[\"zip\"][1:] }}", "{{ xs[99].a | default(value=1) }}",
         "{{ u }}", "{{ user.zip }}", "{{ u + 1 }}", "{{ 1 * user.zip }}", "{{ 2 - u }}", "{{ u / 2 }}", "{{ u // 2 }}", "{{ u % 2 }}", "{{ u ** 2 }}", "{{ -u }}", "{{ - user.zip }}",
         "{{ u.a }}", "{{ user.zip.a }}", "{{ u[0] }}", "{{ user.zip[0] }}", "{{ u.a is defined }}", "{{ user.zip.zap is defined }}",
         "{{ u.a | default(value=1) }}", "{{ u.a or 1 }}", "{{ xs[u] }}", "{{ u[1:] }}", "{% for x in u %}{% endfor %}",
